@@ -5,5 +5,5 @@ SPEC = dict(id="C16", kind="world", monitor="resume_ok",
     modulo={"failed-suggestion-not-cleaned": "V_C16w", "cleanup-on-stale-completed-experiment": "V_C16x"},
     coq_targets=["theories/Props/C16.vo", "theories/Corr/WorldAll.vo"],
     level_text='State-level theorems over the joint controller model at quiescence: C16_cleanup (completed, Never/FromVolume, non-failed suggestion: Succeeded, no Deployment, no Service), C16_service_running (suggestion neither Succeeded nor Failed: Deployment available, Service present, Running, claim present under FromVolume), C16_pvc_kept (only Deployment and Service are ever deleted); per reconcile C16_no_rpc, C16_restart_only_when_allowed and C16_sug_restart_only_when_enabled; over all runs under Never/LongRunning C16_succeeded_only_after_completion; the monitor (cleanup per policy at quiescence, no RPC after a Succeeded snapshot, verdict withdrawn only when the restart is enabled, the Succeeded condition of the suggestion withdrawn only for an enabled restart) runs on histories including restart lives over the real experiment and suggestion reconcilers',
-    level_note='restart progress (after a raise the experiment runs to a verdict again) is the monitor clause restart_progress and is violated in the histories of known finding F18 (model witness: C04_no_wedge_needs_hypothesis); known finding F14 (failed suggestion is never cleaned up)' + "; " + "; ".join(ASSUME),
+    level_note='restart progress (after a raise the experiment runs to a verdict again) is theorem C16_restart_progress over all runs (it needed the repair of F18, /repo 6ef4053) and the monitor clause restart_progress; known finding F14 (failed suggestion is never cleaned up)' + "; " + "; ".join(ASSUME),
     assumptions=ASSUME, trusted_base=TRUSTED)
